@@ -843,7 +843,10 @@ class Terminal:
                          address, channel | priority << 6,
                          type.value | self.mbx_lock.next_counter() << 4,
                          *args, data=data)
-        await self.write(self.mbx_out_off + self.mbx_out_sz - 1, data=1)
+        if 6 + datasize(args, data) < self.mbx_out_sz:
+            # writing the last byte hands the mailbox over to the terminal;
+            # a message that fills the mailbox has done so already
+            await self.write(self.mbx_out_off + self.mbx_out_sz - 1, data=1)
 
     async def mbx_recv(self):
         """receive data from the mailbox"""
